@@ -315,6 +315,10 @@ pub const LINE_PATS: &[LinePat] = &[
     // anchored at both ends AND able to match the empty string: accepting "" says nothing about other lines
     LinePat { re: "^[a-z]*$", matches: |t| t.bytes().all(|c| c.is_ascii_lowercase()) },
     LinePat { re: "^(x.*)?$", matches: |t| t.is_empty() || t.starts_with('x') },
+    // inline flags and Unicode classes (predicates exact for the characters the alphabets hold)
+    LinePat { re: "(?i)^abc$", matches: |t| t.eq_ignore_ascii_case("abc") },
+    LinePat { re: r"^\p{Lu}", matches: |t| t.chars().next().is_some_and(char::is_uppercase) },
+    LinePat { re: r"(?x) ^ x \d $", matches: |t| { let c: Vec<char> = t.chars().collect(); c.len() == 2 && c[0] == 'x' && c[1].is_ascii_digit() } },
 ];
 
 pub fn line_pat(re: &str) -> Option<&'static LinePat> {
